@@ -6,7 +6,7 @@ LEVEL = "model_checking"
 SPECDIRS = g.SPECDIRS + ("c13", "c04")
 
 
-CLOSURE_PARTS = ("calls", "exprs", "dims", "conds", "regex", "sources", "cross")
+CLOSURE_PARTS = ("calls", "exprs", "dims", "conds", "regex", "sources", "cross", "dictcalls")
 
 
 def run(ctx):
@@ -23,11 +23,11 @@ def run(ctx):
     ctx.assumptions = ["TLC 1.8 + CommunityModules", "recover() observes every panic of the called operation",
                        "operations are run with fixed representative arguments (clock, valuer, two schemas)"]
     parts = []
-    for part in (["calls", "exprs", "dims", "conds", "regex", "sources"] + ([] if ctx.quick else ["cross"])):
+    for part in (["calls", "exprs", "dims", "conds", "regex", "sources", "dictcalls"] + ([] if ctx.quick else ["cross"])):
         cfg = "Gen_c13_%s.cfg" % part
         open(ctx.path("spec", cfg), "w").write('SPECIFICATION Spec\nCONSTANTS Part = "%s"\nCHECK_DEADLOCK FALSE\n' % part)
         cf = ctx.path("cases_%s.ndjson" % part)
-        ctx.tlc("Gen_c13", cfg, env={"CASE_FILE": cf}, workers=1)
+        ctx.tlc("Gen_c13", cfg, env={"CASE_FILE": cf, "DICT_FILE": ctx.source_dict()}, workers=1)
         parts.append((part, cf))
     parts += g.gen_statements(ctx, "selectq")[: (1 if ctx.quick else 2)]
     parts.append(("deep", g.gen_deep(ctx, 4000 if ctx.quick else 40000, 4 if ctx.quick else 5)))
